@@ -19,8 +19,12 @@ DEMOS=()
 for f in "$SRC"/*_test.go; do
   [ -e "$f" ] || continue
   bn=$(basename "$f")
-  dest=$(grep -oE "[A-Za-z0-9_/.-]*$bn" "$SRC/demo_path.txt" | grep -v '^/' | head -1)
-  [ -z "$dest" ] && dest=$(python3 -c "import json,sys;print('')" )
+  dest=$(grep -oE "[A-Za-z0-9_/.-]*/$bn" "$SRC/demo_path.txt" | grep -v '^/' | sed 's#^\./##' | head -1)
+  if [ -z "$dest" ] || [ ! -d "$WT/$(dirname "$dest")" ]; then
+    pk=$(grep -m1 '^package ' "$f" | awk '{print $2}' | sed 's/_test$//')
+    d=$(cd "$WT" && go list -f '{{.Name}} {{.Dir}}' ./... 2>/dev/null | awk -v n="$pk" '$1==n{print $2}' | head -1)
+    dest="${d#$WT/}/$bn"
+  fi
   cp "$f" "$OUT/$bn"
   DEMOS+=("$dest")
   mkdir -p "$WT/$(dirname "$dest")"; cp "$f" "$WT/$dest"
